@@ -103,6 +103,9 @@ def rule_slice(ctx, rep):
                                 "find() results or from spans of the same text", floor=5, floor_what="string slice sites")
     entries = entry_bodies(ctx, rep, ["ironplcc::cli::check", "ironplcc::cli::echo", "ironplcc::cli::tokenize", "ironplcc::lsp::LspServer::run"])
     sites, reach = panics.inventory(ctx, entries)
+    from rules.c04 import _moved_from
+    pending = []
+    matched = set()
     for s in sorted(sites, key=lambda s: s.key or ""):
         if s.generated or s.call is None:
             continue
@@ -114,7 +117,18 @@ def rule_slice(ctx, rep):
         if why:
             r.justified(s.key, "auto: " + why, s.where)
         elif s.key in SLICE_TRIAGE:
+            matched.add(s.key)
             r.justified(s.key, "invariant: " + SLICE_TRIAGE[s.key], s.where)
+        else:
+            pending.append(s)
+    # a triaged construct that moved (String -> &str parameter, extracted helper): the justification is about the construct; it is re-bound in
+    # source order to the entries of the same kind and function that no longer match anything (same protocol as the panic inventory)
+    stale = [k for k in SLICE_TRIAGE if k not in matched]
+    for s in sorted(pending, key=lambda s: (s.where, s.key)):
+        k = _moved_from(ctx, s, stale)
+        if k is not None:
+            stale.remove(k)
+            r.justified(s.key, "invariant (entry %s, construct moved): %s" % (k, SLICE_TRIAGE[k]), s.where)
         else:
             r.finding(s.key, s.where, "string slicing at an offset whose char-boundary/in-bounds status is not established: non-ASCII input can panic here")
     # map_label's arguments really are a label of the current semantic() result
